@@ -626,7 +626,7 @@ def group_of(case):
     return case.tag.split("/")[0]
 
 
-CLAIMED = True
+CLAIMED = False  # temporarily: dispatch bindings must be reconciled with the C16 fixes on main
 TECHNIQUE = ("Lean 4 proof that tetl's own code on one path equals the specification of the compiler builtin on the other, over an "
              "inventory of two-path functions regenerated from the headers on every run; three-way correspondence run "
              "(constant evaluator / run time at -O0, -O2, sanitized / Lean) ties both paths to the specification")
